@@ -71,6 +71,30 @@ def run_lcjobs(wd, gen_kw, sem_file, items):
     return out
 
 
+def run_hdjobs(wd, gen_kw, items):
+    """History dependence without expected values (harness/hdjob.py)."""
+    jobs = []
+    for k, part in enumerate(shards(items, NCPU)):
+        jf, of = os.path.join(wd, 'hj%d.json' % k), os.path.join(wd, 'ho%d.json' % k)
+        json.dump({'gen': gen_kw, 'items': part}, open(jf, 'w'))
+        jobs.append((jf, of))
+
+    def run(j):
+        jf, of = j
+        env = dict(os.environ)
+        env['VERIF_REPO'] = REPO
+        p = subprocess.run([PY, '-m', 'harness.hdjob', jf, of], cwd=VERIF, env=env,
+                           stdout=subprocess.PIPE, stderr=subprocess.STDOUT, timeout=3000)
+        if p.returncode != 0 or not os.path.exists(of):
+            raise MachineryError('hdjob failed:\n' + p.stdout.decode()[-2000:])
+        return json.load(open(of))
+    out = []
+    with ThreadPoolExecutor(max_workers=NCPU) as ex:
+        for recs in ex.map(run, jobs):
+            out.extend(recs)
+    return out
+
+
 def prepare_cases(seeds, gen_kw):
     gens, ovs, cases = {}, {}, []
     for s in seeds:
@@ -157,6 +181,23 @@ def main():
             else:
                 ok += 1
         rep.traces(ok + len(recs))
+        # HistoryFree, observed directly: the last calculation of a sequence on a used
+        # model against the same calculation on a fresh model
+        nh = 400 if not thorough else 4000
+        hitems = [{'seed': base + 50000 + i, 'path': 'dict' if i % 4 else 'file'} for i in range(nh)]
+        for r in run_hdjobs(wd, c03.GEN_KW, hitems):
+            rep.count(max(1, r['n']))
+            rep.distinct(('hd', r['seed']))
+            if r.get('exc'):
+                continue        # a calculation that raises is judged by the replay above
+            for p in r['problems'][:3]:
+                rep.violation({'kind': 'history-dependence', 'seed': r['seed'], 'cell': p['cell']},
+                              {'workbook_seed': r['seed'], 'path': r['path'],
+                               'inputs_in_order': r['seq'], 'problem': p,
+                               'workbook': c03.describe(G.make(r['seed'], **c03.GEN_KW)),
+                               'how': 'the calculations run in order on one model; the last one '
+                                      'repeated on a fresh model; Lifecycle!HistoryFree'})
+        rep.cov['history_dependence_sequences'] = nh
         rep.sample({'history': recs[0]['hist'], 'workbook': c03.describe(gens[recs[0]['seed']]),
                     'override_sets': [{k: V.show(v) for k, v in o['ov'].items()}
                                       for o in ovs[recs[0]['seed']]]})
